@@ -150,6 +150,10 @@ func genMD(r *rand.Rand) string {
 		if r.Intn(6) == 0 {
 			v = "Bearer " + randText(r, 10, "abcdef0123456789")
 		}
+		// a key with an EMPTY value is still a key the server must see
+		if r.Intn(12) == 0 {
+			v = ""
+		}
 		out = append(out, c20lib.Enc(k)+":"+c20lib.Enc(v))
 	}
 	// one call in eight is REFUSED by the server with a gRPC status of its own choosing (any of the seventeen codes, or
